@@ -174,6 +174,9 @@ struct Real {
     accessors: Vec<(usize, Vec<(&'static str, Reader)>)>,
     /// subscribers: a memo over `t_string!` and an effect writing what it sees into a sink
     reactive: Vec<(usize, Memo<String>, std::sync::Arc<std::sync::Mutex<Option<String>>>)>,
+    /// one Memo per tracked accessor, each holding that accessor alone (a subscription any other read would give is
+    /// not there to hide a missing one)
+    memos: Vec<(usize, Vec<(&'static str, Memo<String>)>)>,
     /// the views of the provider components (they own the providers' owners)
     views: Vec<AnyView>,
 }
@@ -200,7 +203,7 @@ impl Real {
         let root = Owner::current().expect("owner");
         let ctx: I18nContext<Locale> = init_i18n_context_with_options(opts);
         provide_context(ctx);
-        Real { ctxs: vec![ctx], owners: vec![root], wired: vec![None], accessors: vec![], reactive: vec![], views: vec![] }
+        Real { ctxs: vec![ctx], owners: vec![root], wired: vec![None], accessors: vec![], reactive: vec![], memos: vec![], views: vec![] }
     }
     fn apply(&mut self, op: Op) {
         match op {
@@ -287,6 +290,20 @@ impl Real {
                         format!("{a} BUT scoped view gives {b}")
                     }
                 });
+                let scoped_m = scope_i18n!(ctx, group.deep);
+                let singles: Vec<(&'static str, Memo<String>)> = vec![
+                    ("memo t_string!(hello)", Memo::new(move |_| t_string!(ctx, hello).to_string())),
+                    ("memo t_display!(greet)", Memo::new(move |_| t_display!(ctx, greet, name = "N").to_string())),
+                    ("memo t_string!(greet)", Memo::new(move |_| t_string!(ctx, greet, name = "N").to_string())),
+                    ("memo t!(hello)", Memo::new(move |_| strip(t!(ctx, hello)().to_html()))),
+                    ("memo t!(items)", Memo::new(move |_| strip(t!(ctx, items, count = || 2)().to_html()))),
+                    ("memo t_string!(scoped leaf)", Memo::new(move |_| t_string!(scoped_m, leaf, name = "N").to_string())),
+                    ("memo t_display!(scoped leaf)", Memo::new(move |_| t_display!(scoped_m, leaf, name = "N").to_string())),
+                    ("memo t_format_string!(number)", Memo::new(move |_| leptos_i18n::t_format_string!(ctx, 1234567.5f64, formatter: number).to_string())),
+                    ("memo t_format_display!(list)", Memo::new(move |_| leptos_i18n::t_format_display!(ctx, ["A", "B", "C"], formatter: list(list_type: and)).to_string())),
+                    ("memo get_locale hello", Memo::new(move |_| format!("hello-{}", ctx.get_locale().as_str()))),
+                ];
+                self.memos.push((c, singles));
                 let sink = std::sync::Arc::new(std::sync::Mutex::new(None));
                 let sink2 = sink.clone();
                 self.owners[c].with(|| {
@@ -379,6 +396,18 @@ fn replay(history: &[Op], snapshots: Option<&mut Vec<String>>) -> Option<String>
                     let e = sink.lock().unwrap().clone();
                     if e.as_deref() != Some(expected_text("greet", got).as_str()) {
                         return Some(format!("after step {step} ({op:?}) an effect over t_string!(greet) created earlier from context {c} last saw {e:?} while the context reads {}", NAMES[got]));
+                    }
+                }
+            }
+            for (c, singles) in &real.memos {
+                let got = idx(real.ctxs[*c].get_locale_untracked());
+                if model.untracked_last[*c] || model.cands[*c].len() != 1 {
+                    continue;
+                }
+                for (name, memo) in singles {
+                    let m = memo.get_untracked();
+                    if m != expected_text(name, got) {
+                        return Some(format!("after step {step} ({op:?}) a {name} created earlier from context {c} (nothing else tracked in it) holds {m:?} while the context reads {}", NAMES[got]));
                     }
                 }
             }
@@ -483,7 +512,7 @@ pub fn run(tier: Tier) -> i32 {
     rep.sample(json!({"history": format!("{probe:?}"), "snapshots": a}));
     let n_states = states.lock().unwrap().len();
     let mut cov = serde_json::Map::new();
-    cov.insert("rule".into(), json!(format!("every operation history of length <= {depth} over a tree of <= {max_ctx} contexts: set_locale / set_locale_untracked (fr, de) on any context, set through a doubly scoped view, sub-context creation under any context with no / constant / caller-wired initial locale - directly (init_i18n_subcontext_with_options in a child owner) or through the generated <I18nSubContextProvider> component placed in the parent's owner -, set_locale through a handle looked up with use_i18n() in a context's owner after everything created next to it, writes to a wired signal (changing and not changing its value), creation of accessor sets (t! closures with and without arguments and scoping, t_string!, tu_string!, t_display!) and `poll` (run effects to quiescence - also absent, so both 'effects have run' and 'not yet' are explored); each history is replayed from scratch on a fresh Owner (stateless search) and after EVERY step every context, a fresh scoped view of it and every accessor made earlier is read; oracle: a map context -> last locale set (own sets and its wired signal only); states = distinct (context locales) snapshots reached")));
+    cov.insert("rule".into(), json!(format!("every operation history of length <= {depth} over a tree of <= {max_ctx} contexts: set_locale / set_locale_untracked (fr, de) on any context, set through a doubly scoped view, sub-context creation under any context with no / constant / caller-wired initial locale - directly (init_i18n_subcontext_with_options in a child owner) or through the generated <I18nSubContextProvider> component placed in the parent's owner -, set_locale through a handle looked up with use_i18n() in a context's owner after everything created next to it, writes to a wired signal (changing and not changing its value), creation of accessor sets (t! closures with and without arguments and scoping, t_string!, tu_string!, t_display!, the format macros; a Memo + Effect pair, and one Memo per tracked accessor - t_string!, t_display!, t!, the scoped forms, t_format_string!, t_format_display!, get_locale - holding that accessor alone) and `poll` (run effects to quiescence - also absent, so both 'effects have run' and 'not yet' are explored); each history is replayed from scratch on a fresh Owner (stateless search) and after EVERY step every context, a fresh scoped view of it and every accessor made earlier is read; oracle: a map context -> last locale set (own sets and its wired signal only); states = distinct (context locales) snapshots reached")));
     cov.insert("exhaustive".into(), json!(true));
     cov.insert("states".into(), json!(n_states.max(1)));
     cov.insert("depth".into(), json!(depth));
